@@ -92,6 +92,7 @@ SPEA = dict(
              alias="fill_branch Op (map fst v_individuals) v_N v_k v_fits v_chosen_indices ds"),
         dict(key="selSPEA2.trunc", gen="gen_selSPEA2_trunc",
              reads=["individuals", "k", "L", "chosen_indices"], writes=["chosen_indices"], draws=False,
+             wfuel="S (length v_chosen_indices)",
              alias="trunc_branch Op (map fst v_individuals) v_k v_chosen_indices"),
     ],
     types={"individuals": "inds", "k": "nat", "N": "nat", "L": "nat", "K": "Z", "fits": "listnat",
@@ -686,8 +687,9 @@ class FnTr(object):
 
 
 # ---- selSPEA2 ------------------------------------------------------------------------------------------
-LOCAL_TYPES = {"strength_fits": "listnat", "dominating_inds": "llnat"}       # declared types of empty-list locals
+LOCAL_TYPES = {"strength_fits": "listnat", "dominating_inds": "llnat", "to_remove": "listnat"}       # declared types of empty-list locals
 UNIT_GLOBALS = ("range", "len", "float", "sorted", "reversed", "list", "_randomizedSelect")
+ZERO_OF = {"T": "(n_ofZ Op 0%Z)", "nat": "0%nat"}
 
 
 def tup(names):
@@ -715,6 +717,7 @@ class SpeaTr(object):
         self.unit_status = {}
         self.unit_defs = []
         self.for_depth = 0
+        self.z_names = set()
 
     # ---- expressions ---------------------------------------------------------------------------------
     def coerceZ(self, x, t, node):
@@ -746,6 +749,18 @@ class SpeaTr(object):
             if e.id not in env:
                 refuse(e, "name %s is not bound here" % e.id)
             return v(e.id), env[e.id]
+        if isinstance(e, ast.UnaryOp) and isinstance(e.op, ast.USub) and isinstance(e.operand, ast.Constant) \
+                and isinstance(e.operand.value, int) and not isinstance(e.operand.value, bool):
+            return zlit(-e.operand.value), "Z"
+        if isinstance(e, ast.BoolOp) and isinstance(e.op, ast.And):
+            # pure operands: `a and b` is the conjunction (the short circuit only matters for exceptions)
+            cs = [self.expr(x, env) for x in e.values]
+            if any(t != "bool" for _, t in cs):
+                refuse(e, "`and` between non-conditions")
+            return "(%s)" % " && ".join(c for c, _ in cs), "bool"
+        if isinstance(e, ast.Call) and isinstance(e.func, ast.Name) and e.func.id == "float" and len(e.args) == 1 \
+                and not e.keywords and isinstance(e.args[0], ast.Constant) and e.args[0].value == "inf":
+            return "(n_inf Op)", "T"
         if isinstance(e, ast.BinOp):
             if isinstance(e.op, ast.Mult) and isinstance(e.left, ast.List) and len(e.left.elts) == 1:
                 c, tc = self.expr(e.left.elts[0], env)
@@ -779,6 +794,12 @@ class SpeaTr(object):
                 if ta != "nat" or tb != "listnat":
                     refuse(e, "membership test outside <natural number> in <list of natural numbers>")
                 return ("(memb %s %s)" if op is ast.In else "(negb (memb %s %s))") % (a, b), "bool"
+            if ta == "T" and tb == "T":
+                if op is ast.Lt:
+                    return "(n_ltb Op %s %s)" % (a, b), "bool"
+                if op is ast.Gt:
+                    return "(n_ltb Op %s %s)" % (b, a), "bool"
+                refuse(e, "number comparison other than < and >")
             if ta == "nat" and tb == "nat":
                 m = {ast.Lt: "(Nat.ltb %s %s)" % (a, b), ast.LtE: "(Nat.leb %s %s)" % (a, b),
                      ast.Gt: "(Nat.ltb %s %s)" % (b, a), ast.GtE: "(Nat.leb %s %s)" % (b, a),
@@ -843,8 +864,10 @@ class SpeaTr(object):
                     refuse(e, "slice bound is not a natural number")
                 return "(skipn %s %s)" % (lo, a), ta
             i, ti = self.expr(e.slice, env)
-            if ti != "nat":
-                refuse(e, "subscript index is not a natural number")
+            if ti == "Z":
+                i = "(Z.to_nat %s)" % i                # negative indices are not wrapped (never read by the code)
+            elif ti != "nat":
+                refuse(e, "subscript index is not an int")
             return "(nth %s %s %s)" % (i, a, DEFAULT[ELT[ta]]), ELT[ta]
         if isinstance(e, ast.ListComp):
             if len(e.generators) != 1 or e.generators[0].is_async or len(e.generators[0].ifs) > 1:
@@ -875,15 +898,15 @@ class SpeaTr(object):
                 x, tx = "(%s, %s)" % (x0, x1), "pnnat"
             else:
                 x, tx = self.expr(e.elt, env2, ew)
-            lt = {"nat": "listnat", "listnat": "llnat", "pnnat": "lpnnat"}.get(tx)
+            lt = {"nat": "listnat", "listnat": "llnat", "pnnat": "lpnnat", "listT": "llT"}.get(tx)
             if lt is None:
                 refuse(e, "comprehension element of type %s" % tx)
             return "(map (fun x_ => %s%s) %s)" % (tgt_bind, x, res), lt
         refuse(e, "expression outside the grammar")
 
     def cond(self, e, env):
-        if isinstance(e, ast.BoolOp):
-            refuse(e, "and / or")
+        if isinstance(e, ast.BoolOp) and not isinstance(e.op, ast.And):
+            refuse(e, "or")
         c, t = self.expr(e, env)
         if t != "bool":
             refuse(e, "condition is not a comparison / dominates call")
@@ -896,10 +919,19 @@ class SpeaTr(object):
                 if n in env:
                     refuse(target, "loop variable %s is already bound" % n)
         if isinstance(it, ast.Call) and isinstance(it.func, ast.Name) and not it.keywords:
+            if it.func.id == "reversed" and len(it.args) == 1 and isinstance(target, ast.Name) \
+                    and isinstance(it.args[0], ast.Call) and isinstance(it.args[0].func, ast.Name) \
+                    and it.args[0].func.id == "sorted" and len(it.args[0].args) == 1 and not it.args[0].keywords:
+                xs, tx = self.expr(it.args[0].args[0], env)
+                if tx != "listnat":
+                    refuse(it, "sorted of something else than a list of natural numbers")
+                names_free([target.id])
+                return "(rev (sort_nat %s))" % xs, "let %s := x_ in " % v(target.id), {target.id: "nat"}
             if it.func.id == "range" and len(it.args) in (1, 2) and isinstance(target, ast.Name):
                 args = [self.expr(a, env) for a in it.args]
+                args = [("(Z.to_nat %s)" % x, "nat") if t == "Z" else (x, t) for x, t in args]   # range(.., negative) is empty
                 if any(t != "nat" for _, t in args):
-                    refuse(it, "range over something else than natural numbers")
+                    refuse(it, "range over something else than ints")
                 names_free([target.id])
                 txt = "(seq 0 %s)" % args[0][0] if len(args) == 1 else "(seq %s (%s - %s))" % (args[0][0], args[1][0], args[0][0])
                 return txt, "let %s := x_ in " % v(target.id), {target.id: "nat"}
@@ -945,6 +977,9 @@ class SpeaTr(object):
             elif isinstance(s, ast.Assign) and len(s.targets) == 1 and isinstance(s.targets[0], ast.Subscript) \
                     and isinstance(s.targets[0].value, ast.Name):
                 add(s.targets[0].value.id)
+            elif isinstance(s, ast.Assign) and len(s.targets) == 1 and isinstance(s.targets[0], ast.Subscript) \
+                    and isinstance(s.targets[0].value, ast.Subscript) and isinstance(s.targets[0].value.value, ast.Name):
+                add(s.targets[0].value.value.id)
             elif isinstance(s, ast.AugAssign) and isinstance(s.target, ast.Name):
                 add(s.target.id)
             elif isinstance(s, ast.AugAssign) and isinstance(s.target, ast.Subscript) and isinstance(s.target.value, ast.Name):
@@ -965,12 +1000,15 @@ class SpeaTr(object):
             elif isinstance(s, ast.If):
                 for n in self.assigned(s.body) + self.assigned(s.orelse):
                     add(n)
-            elif isinstance(s, ast.For):
+            elif isinstance(s, (ast.For, ast.While)):
                 if s.orelse:
-                    refuse(s, "for with else")
+                    refuse(s, "loop with else")
                 for n in self.assigned(s.body):
                     add(n)
-            elif isinstance(s, ast.Pass):
+            elif isinstance(s, ast.Delete) and len(s.targets) == 1 and isinstance(s.targets[0], ast.Subscript) \
+                    and isinstance(s.targets[0].value, ast.Name):
+                add(s.targets[0].value.id)
+            elif isinstance(s, (ast.Pass, ast.Break)):
                 pass
             else:
                 refuse(s, "statement outside the grammar")
@@ -984,25 +1022,103 @@ class SpeaTr(object):
                     out += [x.id for x in ast.walk(n.target) if isinstance(x, ast.Name)]
         return out
 
-    def block(self, stmts, env, tail, top=False):
+    def own_nodes(self, st):
+        """the nodes of a statement that are not inside a nested loop"""
+        if isinstance(st, (ast.For, ast.While)):
+            return []
+        out = [st]
+        for ch in ast.iter_child_nodes(st):
+            out += self.own_nodes(ch)
+        return out
+
+    def block(self, stmts, env, tail, top=False, brk=None):
         if not stmts:
             return tail(env)
         s, rest = stmts[0], stmts[1:]
         env = dict(env)
 
         def go():
-            return self.block(rest, env, tail, top)
+            return self.block(rest, env, tail, top, brk)
 
         if isinstance(s, ast.Expr) and isinstance(s.value, ast.Constant) and isinstance(s.value.value, str):
             return go()
         if isinstance(s, ast.Pass):
             return go()
+        if isinstance(s, ast.Break):
+            if brk is None or rest:
+                refuse(s, "break outside a for loop / followed by statements")
+            return brk(env)
+        if isinstance(s, ast.Assign) and len(s.targets) == 1 and isinstance(s.targets[0], ast.Subscript) \
+                and isinstance(s.targets[0].value, ast.Subscript) and isinstance(s.targets[0].value.value, ast.Name):
+            # x[i][j] = e
+            t = s.targets[0]
+            a = t.value.value.id
+            ta = env.get(a)
+            if ta not in ("llT", "llnat") or isinstance(t.slice, ast.Slice) or isinstance(t.value.slice, ast.Slice):
+                refuse(s, "x[i][j] = e on something else than a list of lists")
+            idx = []
+            for sl in (t.value.slice, t.slice):
+                i, ti = self.expr(sl, env)
+                if ti == "Z":
+                    i = "(Z.to_nat %s)" % i
+                elif ti != "nat":
+                    refuse(s, "index is not an int")
+                idx.append(i)
+            x, tx = self.expr(s.value, env)
+            et = ELT[ELT[ta]]
+            if et == "T" and tx in ("Z", "nat"):       # an int stored in a list of floats reads as float(z)
+                x, tx = "(n_ofZ Op %s)" % self.coerceZ(x, tx, s), "T"
+            if tx != et:
+                refuse(s, "x[i][j] = e stores a value of type %s in a %s" % (tx, ta))
+            return "let %s := set_nth %s %s (set_nth (nth %s %s %s) %s %s) in\n%s" % (
+                v(a), v(a), idx[0], idx[0], v(a), DEFAULT[ELT[ta]], idx[1], x, go())
+        if isinstance(s, ast.Delete):
+            if len(s.targets) != 1 or not isinstance(s.targets[0], ast.Subscript) or not isinstance(s.targets[0].value, ast.Name) \
+                    or isinstance(s.targets[0].slice, ast.Slice):
+                refuse(s, "del outside del x[i]")
+            a = s.targets[0].value.id
+            i, ti = self.expr(s.targets[0].slice, env)
+            if env.get(a) != "listnat" or ti != "nat":
+                refuse(s, "del x[i] on something else than a list of natural numbers / a natural index")
+            return "let %s := remove_nth %s %s in\n%s" % (v(a), i, v(a), go())
+        if isinstance(s, ast.AugAssign) and isinstance(s.op, ast.Sub) and isinstance(s.target, ast.Name):
+            n = s.target.id
+            x, tx = self.expr(s.value, env, "Z")
+            if env.get(n) != "Z":
+                refuse(s, "x -= e on a name that is not an int (Z)")
+            return "let %s := (%s - %s)%%Z in\n%s" % (v(n), v(n), self.coerceZ(x, tx, s), go())
+        if isinstance(s, ast.While):
+            if s.orelse or any(isinstance(n, (ast.Break, ast.Continue, ast.Return)) for n in ast.walk(s) if not isinstance(n, ast.For)) \
+                    and any(isinstance(n, (ast.Continue, ast.Return)) for n in ast.walk(s)):
+                refuse(s, "while with else / continue / return")
+            if any(isinstance(n, ast.Break) for st in s.body for n in self.own_nodes(st)):
+                refuse(s, "break in a while")
+            fuel = env.get("$wfuel")
+            if not fuel:
+                refuse(s, "while loop in a unit the table gives no fuel for")
+            names = self.assigned(s.body)
+            state = [n for n in env if n in names]
+            for n in names:
+                if n not in env and n in self.reads_after(s.body, rest):
+                    refuse(s, "name %s is first bound inside a loop and used afterwards" % n)
+            if not state:
+                refuse(s, "loop without effect on the variables bound before it")
+            c = self.cond(s.test, env)
+            self.for_depth += 1
+            try:
+                body = self.block(s.body, dict(env), lambda e2: tup(state))
+            finally:
+                self.for_depth -= 1
+            return "let %s := while_ (%s) (fun st_ => let %s := st_ in %s) (fun st_ => let %s := st_ in\n%s) %s in\n%s" % (
+                letpat(state), fuel, letpat(state), c, letpat(state), body, tup(state), go())
         if isinstance(s, ast.Assign) and len(s.targets) == 1 and isinstance(s.targets[0], ast.Name) \
                 and not (isinstance(s.value, ast.Call) and isinstance(s.value.func, ast.Name)
                          and s.value.func.id == "_randomizedSelect"):
             n = s.targets[0].id
             want = env.get(n) or SPEA["types"].get(n) or LOCAL_TYPES.get(n)
             x, t = self.expr(s.value, env, want)
+            if n in self.z_names and t == "nat":        # a name that is decremented somewhere is an int (Z) throughout
+                x, t = "(Z.of_nat %s)" % x, "Z"
             if want is not None and want != t:
                 refuse(s, "name %s gets a value of type %s, declared / previously %s" % (n, t, want))
             if n in self.loop_targets(self.fn.body) and n not in env:
@@ -1078,10 +1194,13 @@ class SpeaTr(object):
                 if ti != "nat":
                     refuse(s, "index is not a natural number")
                 return "let %s := set_nth %s %s (nth %s %s (@nil nat) ++ [%s]) in\n%s" % (v(a), v(a), i, i, v(a), x, go())
-            refuse(s, "append outside x[i].append(natural number)")
+            if isinstance(t, ast.Name) and env.get(t.id) == "listnat" and tx == "nat":
+                return "let %s := %s ++ [%s] in\n%s" % (v(t.id), v(t.id), x, go())
+            refuse(s, "append outside x[i].append(natural number) / x.append(natural number)")
         if isinstance(s, ast.For):
-            if any(isinstance(n, (ast.Break, ast.Continue, ast.Return)) for n in ast.walk(s)):
-                refuse(s, "break / continue / return inside a for")
+            if any(isinstance(n, (ast.Continue, ast.Return)) for n in ast.walk(s)):
+                refuse(s, "continue / return inside a for")
+            has_brk = any(isinstance(n, ast.Break) for st in s.body for n in self.own_nodes(st))
             it, bind, tenv = self.iterable(s.iter, s.target, env)
             names = self.assigned(s.body)
             state = [n for n in env if n in names]          # canonical order: order of first binding in the function
@@ -1098,7 +1217,11 @@ class SpeaTr(object):
                 env2.update(tenv)
                 self.for_depth += 1
                 try:
-                    body = self.block(s.body, env2, lambda e2: tup(state))
+                    if has_brk:
+                        body = self.block(s.body, env2, lambda e2: "Next %s" % tup(state), False,
+                                          lambda e2: "Ret %s" % tup(state))
+                    else:
+                        body = self.block(s.body, env2, lambda e2: tup(state))
                     break
                 except Widen as w:
                     if self.for_depth > 1 or env.get(w.name) != "listnat":
@@ -1109,14 +1232,20 @@ class SpeaTr(object):
                     self.for_depth -= 1
             else:
                 refuse(s, "type widening did not settle")
-            return "%slet %s := for_ %s (fun x_ st_ => %slet %s := st_ in\n%s) %s in\n%s" % (
-                pre, letpat(state), it, bind, letpat(state), body, tup(state), go())
+            return "%slet %s := %s %s (fun x_ st_ => %slet %s := st_ in\n%s) %s in\n%s" % (
+                pre, letpat(state), "for_brk" if has_brk else "for_", it, bind, letpat(state), body, tup(state), go())
         if isinstance(s, ast.If):
             if top:
                 return self.unit_chain(s, rest, env, tail)
             if has_return(s.body) or has_return(s.orelse):
                 refuse(s, "return inside an if")
             c = self.cond(s.test, env)
+            if any(isinstance(n, ast.Break) for st in s.body + s.orelse for n in self.own_nodes(st)):
+                # a branch may leave the loop: the rest of the block is the continuation of the branches that fall through
+                cont = lambda e2: self.block(rest, e2, tail, top, brk)      # noqa
+                a = self.block(s.body, env, cont, False, brk)
+                b = self.block(s.orelse, env, cont, False, brk)
+                return "if %s then (\n%s\n) else (\n%s\n)" % (c, a, b)
             names = self.assigned(s.body + s.orelse)
             for n in names:
                 if n not in env:
@@ -1175,12 +1304,16 @@ class SpeaTr(object):
                 u["gen"], " ".join("(%s : %s)" % (v(r), COQ_TYPE[SPEA["types"][r]]) for r in u["reads"]),
                 " (ds : list Z)" if u["draws"] else "", "list nat * list Z" if u["draws"] else "list nat")
             why = self.forced.get(u["key"])
+            if why is None and u.get("attempt") is False and not os.environ.get("C07_TRY_" + u["key"].split(".")[1].upper()):
+                why = Refuse(s, "this branch is not attempted by the translator (no equivalence proof for it yet)")
             text = None
             if why is None:
                 try:
                     uenv = {r: SPEA["types"][r] for r in u["reads"]}
                     if u["draws"]:
                         uenv["$draws"] = True
+                    if u.get("wfuel"):
+                        uenv["$wfuel"] = u["wfuel"]
                     text = self.block(body, uenv, lambda e2: ("(%s, ds)" if u["draws"] else "%s") % tup(u["writes"]))
                 except Refuse as e:
                     why = e
@@ -1213,6 +1346,8 @@ class SpeaTr(object):
         if not fn.body or not isinstance(fn.body[-1], ast.Return):
             refuse(fn, "the body does not end with a return")
         env = {"individuals": "inds", "k": "nat"}
+        self.z_names = set(n.target.id for n in ast.walk(fn) if isinstance(n, ast.AugAssign) and isinstance(n.op, ast.Sub)
+                           and isinstance(n.target, ast.Name))
         body = self.block(fn.body, env, lambda e2: refuse(fn, "the body may fall off its end"), True)
         if len(self.unit_defs) != len(SPEA["units"]):
             refuse(fn, "the top-level if / elif with the two archive branches was not found")
